@@ -277,6 +277,7 @@ func c14Engines(r *Run, pool *Pool, st *c14Stats) {
 		fmtv  api.Format
 		goal  string
 		feats map[string]int
+		parts []string
 	}
 	var units []unit
 	feat := featgenCases()
@@ -285,7 +286,11 @@ func c14Engines(r *Run, pool *Pool, st *c14Stats) {
 		if j > len(feat) {
 			j = len(feat)
 		}
-		units = append(units, unit{src: featSource(feat[i:j]), goal: "script"})
+		u := unit{src: featSource(feat[i:j]), goal: "script"}
+		for k := i; k < j; k++ {
+			u.parts = append(u.parts, featSource(feat[k:k+1]))
+		}
+		units = append(units, u)
 	}
 	units = append(units, unit{src: "exports.f = function (p) { return import(p).then(function (m) { return m.default; }); };\nexports.g = function () { return import('./other.js'); };\n", fmtv: api.FormatCommonJS, goal: "cjs"})
 	units = append(units, unit{src: "var r1 = /a.b/s, r2 = /(?<n>x)\\k<n>/, r3 = /(?<=a)b/, r4 = /\\p{L}/u, r5 = /a/d, r6 = /[\\p{L}--[a-z]]/v, big = 1_000_000;\ntry { r1.exec('') } catch { }\n$(r1, r2, r3, r4, r5, r6, big);\n", goal: "script"})
@@ -299,7 +304,7 @@ func c14Engines(r *Run, pool *Pool, st *c14Stats) {
 			units[i].feats = fr.Features
 		}
 	}
-	var builds, obligations, withErrors int64
+	var builds, obligations, withErrors, partsAlone int64
 	var smu sync.Mutex
 	sampled := 0
 	type job struct {
@@ -318,46 +323,61 @@ func c14Engines(r *Run, pool *Pool, st *c14Stats) {
 		jb := jobs[i]
 		u := units[jb.u]
 		vt := verText(jb.p.v, jb.p.style)
-		res, pan := transformSafe(u.src, api.TransformOptions{Loader: api.LoaderJS, Format: u.fmtv, Engines: []api.Engine{{Name: c14EngineNames[jb.p.engine], Version: vt}}})
-		atomic.AddInt64(&builds, 1)
-		r.Eval(1)
-		if pan != "" {
-			return
-		}
-		if len(res.Errors) > 0 {
-			atomic.AddInt64(&withErrors, 1)
-			return
-		}
-		var lacking []string
-		for f := range u.feats {
-			if isFeat[f] && u.feats[f] > 0 && !verSupported(table[f][jb.p.engine], jb.p.v) {
-				lacking = append(lacking, f)
+		var one func(src string, feats map[string]int, whole bool)
+		one = func(src string, feats map[string]int, whole bool) {
+			res, pan := transformSafe(src, api.TransformOptions{Loader: api.LoaderJS, Format: u.fmtv, Engines: []api.Engine{{Name: c14EngineNames[jb.p.engine], Version: vt}}})
+			atomic.AddInt64(&builds, 1)
+			r.Eval(1)
+			if pan != "" {
+				return
 			}
-		}
-		if len(lacking) == 0 {
-			return
-		}
-		sort.Strings(lacking)
-		var fr featRes
-		if err := pool.Call(map[string]interface{}{"op": "features", "code": string(res.Code), "goal": u.goal}, &fr); err != nil || !fr.OK {
-			r.Count("engine_outputs_not_parseable(C13 matter)", 1)
-			return
-		}
-		r.Nontrivial(fmt.Sprint("engine", jb.p.engine, jb.p.v, jb.u))
-		for _, f := range lacking {
-			atomic.AddInt64(&obligations, 1)
-			if fr.Features[f] > 0 {
-				r.Violation("engine-target-syntax:"+f+":"+jb.p.engine, fmt.Sprintf("target %s%s: the compat table says this version lacks %s (ranges %v) but the output still contains %d use(s) of it and no error was reported", jb.p.engine, vt, f, table[f][jb.p.engine], fr.Features[f]),
-					map[string]interface{}{"engine": jb.p.engine, "version": vt, "feature": f, "table_ranges": table[f][jb.p.engine], "input": u.src, "output": string(res.Code), "warnings": len(res.Warnings)})
+			if len(res.Errors) > 0 {
+				atomic.AddInt64(&withErrors, 1)
+				if whole {
+					// a case the engine cannot express makes esbuild refuse the unit: its cases are compiled one by one
+					for _, p := range u.parts {
+						var fr featRes
+						if err := pool.Call(map[string]interface{}{"op": "features", "code": p, "goal": u.goal}, &fr); err == nil && fr.OK {
+							atomic.AddInt64(&partsAlone, 1)
+							one(p, fr.Features, false)
+						}
+					}
+				}
+				return
 			}
+			var lacking []string
+			for f := range feats {
+				if isFeat[f] && feats[f] > 0 && !verSupported(table[f][jb.p.engine], jb.p.v) {
+					lacking = append(lacking, f)
+				}
+			}
+			if len(lacking) == 0 {
+				return
+			}
+			sort.Strings(lacking)
+			var fr featRes
+			if err := pool.Call(map[string]interface{}{"op": "features", "code": string(res.Code), "goal": u.goal}, &fr); err != nil || !fr.OK {
+				r.Count("engine_outputs_not_parseable(C13 matter)", 1)
+				return
+			}
+			r.Nontrivial(fmt.Sprint("engine", jb.p.engine, jb.p.v, hash64(src)))
+			for _, f := range lacking {
+				atomic.AddInt64(&obligations, 1)
+				if fr.Features[f] > 0 {
+					r.Violation("engine-target-syntax:"+f+":"+jb.p.engine, fmt.Sprintf("target %s%s: the compat table says this version lacks %s (ranges %v) but the output still contains %d use(s) of it and no error was reported", jb.p.engine, vt, f, table[f][jb.p.engine], fr.Features[f]),
+						map[string]interface{}{"engine": jb.p.engine, "version": vt, "feature": f, "table_ranges": table[f][jb.p.engine], "input": src, "output": string(res.Code), "warnings": len(res.Warnings)})
+				}
+			}
+			smu.Lock()
+			if sampled < 2 {
+				sampled++
+				r.Sample(map[string]interface{}{"kind": "engine-target", "engine": jb.p.engine, "version": vt, "features_the_table_says_are_missing": lacking, "input_head": trunc(src, 160)})
+			}
+			smu.Unlock()
 		}
-		smu.Lock()
-		if sampled < 2 {
-			sampled++
-			r.Sample(map[string]interface{}{"kind": "engine-target", "engine": jb.p.engine, "version": vt, "features_the_table_says_are_missing": lacking, "input_head": trunc(u.src, 160)})
-		}
-		smu.Unlock()
+		one(u.src, u.feats, true)
 	})
+	r.Count("engine_target_cases_compiled_alone_after_their_unit_was_refused", int(partsAlone))
 	r.Count("engine_target_points", len(points))
 	r.Count("engine_target_builds", int(builds))
 	r.Count("engine_target_builds_with_reported_errors_skipped", int(withErrors))
